@@ -283,13 +283,16 @@ func (c *FakeConsole) Close() error {
 	return nil
 }
 
-func (c *FakeConsole) Fd() uintptr                           { return ^uintptr(0) }
-func (c *FakeConsole) Name() string                          { return "fake" }
-func (c *FakeConsole) Resize(ws console.WinSize) error       { c.P.Rows, c.P.Cols = int(ws.Height), int(ws.Width); return nil }
-func (c *FakeConsole) ResizeFrom(console.Console) error      { return nil }
-func (c *FakeConsole) SetRaw() error                         { c.Raws++; return nil }
-func (c *FakeConsole) DisableEcho() error                    { return nil }
-func (c *FakeConsole) Reset() error                          { c.Resets++; return nil }
+func (c *FakeConsole) Fd() uintptr  { return ^uintptr(0) }
+func (c *FakeConsole) Name() string { return "fake" }
+func (c *FakeConsole) Resize(ws console.WinSize) error {
+	c.P.Rows, c.P.Cols = int(ws.Height), int(ws.Width)
+	return nil
+}
+func (c *FakeConsole) ResizeFrom(console.Console) error { return nil }
+func (c *FakeConsole) SetRaw() error                    { c.Raws++; return nil }
+func (c *FakeConsole) DisableEcho() error               { return nil }
+func (c *FakeConsole) Reset() error                     { c.Resets++; return nil }
 func (c *FakeConsole) Size() (console.WinSize, error) {
 	return console.WinSize{Height: uint16(c.P.Rows), Width: uint16(c.P.Cols)}, nil
 }
